@@ -57,6 +57,19 @@ def h_value_method(I, st, name, selfv, args, kwargs, ctx):
         r = U.fresh("got")
         U.well_typed(r)
         return [(st, Sym(r))]
+    if name in ("startswith", "endswith") and isinstance(selfv, Sym) and len(args) == 1 and not kwargs \
+            and isinstance(args[0], Conc) and isinstance(args[0].py, str):
+        # s.startswith('lit') / s.endswith('lit') on a symbolic string: prefix/suffix of its text
+        t = selfv.t
+        lit = z3.StringVal(args[0].py)
+        out = []
+        for (q, b) in I.branch(st, vm.ty(t) == vm.TAG["str"]):
+            if b:
+                out.append((q, BoolV(z3.PrefixOf(lit, vm.strv(t)) if name == "startswith" else z3.SuffixOf(lit, vm.strv(t)))))
+            else:
+                q.notes.append(".%s on a non-str value: outside value model" % name)
+                out.append((q, Raise("$Unmodelled")))
+        return out
     if name == "lower":
         if isinstance(selfv, Conc) and isinstance(selfv.py, str):
             return [(st, Conc(selfv.py.lower()))]
